@@ -112,13 +112,13 @@ var profiles = map[string]map[string]int{
 	// one command, virtual-IP allocation and release, other multi-removal shapes
 	"gateway-vip": {"gateway-vip": 60, "register": 6, "deregister": 4, "config-entry": 5, "manual-vip": 4, "sysmeta": 1},
 }
-var profileNames = []string{"mixed", "mixed", "catalog", "kv", "acl", "config", "config", "peering", "ca", "intentions", "vip", "vip", "resource",
+var profileNames = []string{"mixed", "mixed", "catalog", "kv", "acl", "acl", "config", "config", "peering", "ca", "intentions", "vip", "vip", "resource",
 	"gateway-vip", "gateway-vip", "gateway-vip"}
 
 // in-process replicas per history (replica A included): command shapes whose implementation walks Go
 // maps get more fresh FSMs, so that an order dependence shows with high probability (k equally likely
 // outcomes agree on all of n replicas with probability k^(1-n))
-var profileReplicas = map[string]int{"gateway-vip": 8, "vip": 6, "config": 5, "catalog": 4}
+var profileReplicas = map[string]int{"gateway-vip": 8, "vip": 6, "config": 5, "catalog": 4, "acl": 6, "intentions": 4, "peering": 4}
 
 func (g *gen) pickFamily() family {
 	w := profiles[g.profile]
@@ -799,6 +799,8 @@ func resultSig(h *history, i int, a, b *runOut) string {
 	switch {
 	case strings.Contains(text, "Referenced JWT Provider does not exist"):
 		return "replica:error-text:validateJWTProvider"
+	case strings.Contains(text, "peer exported service") && !strings.Contains(text, "cannot introduce new discovery chain targets"):
+		return "replica:error-text:validateChainIsPeerExportSafe"
 	case strings.Contains(text, "ConfigEntryGraphError") || strings.Contains(text, "discovery chain") ||
 		strings.Contains(text, "which does not match defined listener protocol") || strings.Contains(text, "incompatible with L7 intentions") ||
 		strings.Contains(text, "peer exported service"):
@@ -1079,6 +1081,7 @@ func main() {
 	}
 	cedSection(run)
 	envSection(run)
+	witnessSection(run)
 	storeSection(run)
 	var seen []string
 	missing := []string{}
@@ -1247,4 +1250,44 @@ func storeSection(run *hx.Run) {
 			KVVerbs: map[string]int{"set": 12, "cas": 6, "delete": 6, "delete-cas": 4, "delete-tree": 6, "lock": 50, "unlock": 16}},
 	}
 	storex.RandomHistories(run, profiles, run.Scale(60, 500), 35, func() []storex.Monitor { return nil }, false)
+}
+
+
+// witnessSection replays fixed histories on eight fresh FSMs each and compares every result and dump
+// with the first: shapes found by the random search that are rare enough to deserve a permanent,
+// deterministic witness (the verdict must not depend on whether a run happens to generate them).
+//
+//  peer-export: `db` is exported to a peer; its discovery chain contains two resolvers that are each
+//  unsafe for a peer-exported service, for different reasons (db redirects to another datacenter, the
+//  redirect target api fails over to a datacenter). state.validateChainIsPeerExportSafe ranges over the
+//  map chainEntries.Resolvers and returns the first complaint.
+func witnessSection(run *hx.Run) {
+	mk := func(name string, datas ...[]byte) *history {
+		h := &history{id: -2, profile: "witness:" + name, replicas: 8}
+		idx := uint64(5)
+		for _, d := range datas {
+			h.entries = append(h.entries, entry{Index: idx, Data: d, Tag: "witness:" + name})
+			idx += 2
+		}
+		return h
+	}
+	hs := []*history{
+		mk("peer-export",
+			upsertCE(&structs.ExportedServicesConfigEntry{Name: "default", Services: []structs.ExportedService{{Name: "db", Consumers: []structs.ServiceConsumer{{Peer: "peer-a"}}}}}),
+			upsertCE(&structs.ServiceResolverConfigEntry{Kind: structs.ServiceResolver, Name: "api",
+				Failover: map[string]structs.ServiceResolverFailover{"*": {Datacenters: []string{"dc2"}}}}),
+			upsertCE(&structs.ServiceResolverConfigEntry{Kind: structs.ServiceResolver, Name: "db",
+				Redirect: &structs.ServiceResolverRedirect{Service: "api", Datacenter: "dc2"}})),
+	}
+	for _, h := range hs {
+		a := runHistory(h, 0, 1, true)
+		var fs []finding
+		for k := 1; k < h.replicas && len(fs) == 0; k++ {
+			fs = compare(h, a, runHistory(h, k+2, 1, true), fmt.Sprintf("replica A%d (same process)", k), true)
+		}
+		run.Tag(fmt.Sprintf("%s:agree=%v", h.profile, len(fs) == 0))
+		for _, f := range fs {
+			run.Violate(f.sig, "fixed witness: "+f.desc, f.replay)
+		}
+	}
 }
